@@ -141,6 +141,20 @@ func (dmx *Demuxer) NextData() (d *DemuxerData, err error) {
 	var ps []*Packet
 	var ds []*DemuxerData
 	for {
+		// The previous packet may have completed two units: the second one is still in the pool
+		if ps = dmx.packetPool.readyUnlocked(); len(ps) > 0 {
+			// Parse data
+			if ds, err = parseData(ps, dmx.optPacketsParser, dmx.programMap); err != nil {
+				err = fmt.Errorf("astits: building new data failed: %w", err)
+				return
+			}
+
+			// Update data
+			if d = dmx.updateData(ds); d != nil {
+				return
+			}
+		}
+
 		// Get next packet
 		if p, err = dmx.NextPacket(); err != nil {
 			// If the end of the stream has been reached, we dump the packet pool
